@@ -48,7 +48,7 @@ Proof. exact notify_behind_join. Qed.
 Print Assumptions C07_behind_join.
 
 (* the join is released when ANY parent completes (non-conditional parent), once per notification, and it
-   is ready to run as soon as one parent is complete *)
+   is ready to run once one parent is complete and no parent is still alive *)
 Theorem C07_join_released : forall g p fin draw g' rel canc j,
   notify_completion g p fin draw = (g', Ok (rel, canc)) -> tg_conditional g p = false ->
   In j (tg_children g p) -> tg_terminal g j = true -> tg_state g j <> TS_CANCELLED -> In j rel /\ NoDup rel.
@@ -57,10 +57,20 @@ Proof.
   destruct (notify_children _ _ _ _ _ _ _ H Hc) as (_ & _ & _ & E & _). apply E. auto.
 Qed.
 Print Assumptions C07_join_released.
-Theorem C07_join_ready : forall sts s,
-  is_ready_to_run true sts s = true <-> (exists b, In b sts /\ b = true) /\ (s = TS_SCHEDULED \/ s = TS_PREEMPTED).
-Proof. intros. apply (ready_spec true). Qed.
+Theorem C07_join_ready : forall (A : Type) (complete_of : A -> bool) (state_of : A -> task_state) (ps : list A) s,
+  is_ready_to_run complete_of state_of true ps s = true <->
+  ((exists p, In p ps /\ complete_of p = true) /\
+   (forall p, In p ps -> complete_of p = true \/ state_of p = TS_CANCELLED)) /\
+  (s = TS_SCHEDULED \/ s = TS_PREEMPTED).
+Proof. intros. apply (ready_spec A complete_of state_of true). Qed.
 Print Assumptions C07_join_ready.
+(* the join waits for the branch that was taken: with a parent that is neither complete nor cancelled it is
+   not ready (repaired finding FTG2: after FTG1 the kept join started while the taken branch was running) *)
+Theorem C07_join_waits_for_taken_branch : forall g j p,
+  tg_terminal g j = true -> In p (tg_parents g j) -> tg_complete g p = false -> tg_state g p <> TS_CANCELLED ->
+  is_ready_to_run (tg_complete g) (tg_state g) (tg_terminal g j) (tg_parents g j) (tg_state g j) = false.
+Proof. intros g j p Ht Hp Hc Hs. rewrite Ht. eapply join_waits; eauto. Qed.
+Print Assumptions C07_join_waits_for_taken_branch.
 
 (* with conditionals resolved at submission (probabilities 0 / 1) the released child is THE child of
    probability 1 *)
